@@ -18,6 +18,7 @@ package c18
 import (
 	"fmt"
 	"os"
+	"runtime"
 	"strings"
 	"sync"
 	"sync/atomic"
@@ -531,9 +532,42 @@ func inBubble(t *testing.T, f func() string) (res string) {
 			}
 		}
 	}()
-	synctest.Test(t, func(*testing.T) { res = f() })
-	return res
+	// A goroutine of the queue that neither blocks nor ends (a busy loop, for
+	// instance after Stop) keeps synctest.Wait from ever returning. Executions
+	// normally take microseconds; one that has not finished after 20 s of real
+	// time is reported with the goroutines still alive.
+	done := make(chan struct{})
+	go func() {
+		defer close(done)
+		defer func() {
+			if p := recover(); p != nil {
+				msg := fmt.Sprintf("goroutines of the queue remain blocked after Stop and after all harness goroutines ended (worker not terminated): %v", p)
+				if res != "" {
+					res += "; moreover " + msg
+				} else {
+					res = msg
+				}
+			}
+		}()
+		synctest.Test(t, func(*testing.T) { res = f() })
+	}()
+	select {
+	case <-done:
+		return res
+	case <-time.After(bubbleLimit):
+		buf := make([]byte, 1<<18)
+		n := runtime.Stack(buf, true)
+		var keep []string
+		for _, gr := range strings.Split(string(buf[:n]), "\n\n") {
+			if strings.Contains(gr, "btcwallet/chain") {
+				keep = append(keep, gr)
+			}
+		}
+		return fmt.Sprintf("the execution did not come to rest within %v of real time: a goroutine of the queue neither blocks nor terminates (busy loop?)\n%s", bubbleLimit, strings.Join(keep, "\n\n"))
+	}
 }
+
+var bubbleLimit = 20 * time.Second
 
 func TestC18Queue(t *testing.T) {
 	g := evid.G("TestC18Queue")
